@@ -17,6 +17,20 @@ STREAM_TAGS = ("scalar-split", "number-frame-swallow", "truncated-clean-eof", "j
                "stray-closer", "error-precedence")
 
 
+# small repairs of stream.go (patches/C17-*.diff) -> the finding each one removes; a finding marked "fixed" in
+# known_findings.json tells the driver to run the shipped model with that repair (Model/IOPatched.lean)
+REPAIR_OF = {"C17-stray-closer-noprogress": "a", "C17-truncated-clean-eof": "b", "C17-scalar-split": "c",
+             "C17-error-precedence": "d", "C17-number-frame-swallow": "e"}
+
+
+def repair_flags():
+    fl = ""
+    for k in core.load_known():
+        if k.get("property") == "C17" and k.get("status") == "fixed" and k.get("id") in REPAIR_OF:
+            fl += REPAIR_OF[k["id"]]
+    return "".join(sorted(set(fl)))
+
+
 def split_res(s):
     vals, _, term = (s or "").partition("|")
     return ([] if vals in ("", "-") else vals.split(",")), term
@@ -54,7 +68,9 @@ class C17(Spec):
             eff = sonic.get("eff")
             if eff is None:
                 return "\t".join(case)
-            return "\t".join(case[:3] + eff.split(","))
+            fl = repair_flags()
+            head = [case[0], case[1] + (":" + fl if fl else ""), case[2]]
+            return "\t".join(head + eff.split(","))
         if case[0] == "sink":
             m = sonic.get("marshal")
             if m is None:
